@@ -1368,12 +1368,13 @@ class Converter:
             if python_var in self._current_scope():
                 python_var_value = self._current_scope()[python_var]
                 output = self._to_onnx_var(python_var_value, python_var)
-                if output.name not in self._current_fn.assigned_names:
-                    # TODO (Rama): Unclear how this can happen. If python_var is in current_scope,
-                    # then it should have been assigned a value in the current graph.
-                    #
+                if output.name not in self._current_fn.assigned_names or any(
+                    output is previous for previous in self._current_fn.outputs
+                ):
                     # To return an outer-scope variable, an ONNX Graph has to
-                    # use an explicit copy via Identity.
+                    # use an explicit copy via Identity. The same holds when two
+                    # variables are bound to one value ("y = x" inside the block):
+                    # graph outputs must be distinct values.
                     output = self._emit_copy(output, python_var)
                 self._current_fn.outputs.append(output)
             else:
